@@ -2,23 +2,30 @@ import Gpc.Driver.Num
 import Gpc.Driver.Search
 import Gpc.Driver.Utf8
 import Gpc.Driver.Utf
+import Gpc.Driver.Arena
 open Gpc.Proto
 
-def dispatch (toks : List String) : String :=
-  match toks with
-  | "num" :: rest => Gpc.Driver.num rest
-  | "srch" :: rest => Gpc.Driver.srch rest
-  | "u8" :: rest => Gpc.Driver.u8 rest
-  | "utf" :: rest => Gpc.Driver.utf rest
-  | _ => "bad-op"
+/-- state of the stateful models (one operation script at a time) -/
+structure St where
+  arena : Gpc.Driver.ArenaSt := {}
 
-partial def loop (h : IO.FS.Stream) (out : IO.FS.Stream) : IO Unit := do
+def dispatch (st : St) (toks : List String) : St × String :=
+  match toks with
+  | "num" :: rest => (st, Gpc.Driver.num rest)
+  | "srch" :: rest => (st, Gpc.Driver.srch rest)
+  | "u8" :: rest => (st, Gpc.Driver.u8 rest)
+  | "utf" :: rest => (st, Gpc.Driver.utf rest)
+  | "ar" :: rest => let (a, o) := Gpc.Driver.arenaStep st.arena rest; ({ st with arena := a }, o)
+  | _ => (st, "bad-op")
+
+partial def loop (h : IO.FS.Stream) (out : IO.FS.Stream) (st : St) : IO Unit := do
   let line ← h.getLine
   if line.isEmpty then return ()
-  out.putStrLn (dispatch (tokens line))
-  loop h out
+  let (st', o) := dispatch st (tokens line)
+  out.putStrLn o
+  loop h out st'
 
 def main : IO Unit := do
   let i ← IO.getStdin
   let o ← IO.getStdout
-  loop i o
+  loop i o {}
